@@ -834,6 +834,14 @@ package fzf
 //@ assert @"switch arg {" val != nil ==> arg.arr == allArgs[i].arr && arg.off == allArgs[i].off && (*val).arr == allArgs[i].arr && (*val).off == arg.off + len(arg) + 1 && (*val).off + len(*val) == allArgs[i].off + len(allArgs[i])
 //@ cut @"switch arg {" the 900-line switch over the option names is not followed
 
+// A history size set by an earlier source of options (file, $FZF_DEFAULT_OPTS) still holds for a --history given later:
+// the size the option loop starts from is that of the history loaded so far.
+//@ func parseOptions region#2 @"<body>"
+//@ property C17 C18
+//@ requires opts != nil
+//@ assert @"setHistory := func(path string) error {" historyMax == (opts.History == nil ? 1000 : opts.History.maxSize)
+//@ cut @"setHistory := func(path string) error {" the rest of parseOptions is not part of this contract
+
 //@ func parseTmuxOptions
 //@ property C17
 //@ ensures (r0 == nil) == (r1 != nil)
